@@ -153,7 +153,7 @@ func (m *manager) hasLocatorInCache(group module.TransactionGroup, id []byte, ts
 	if _, ok := m.locators[string(id)]; ok {
 		return ok, true
 	}
-	if l := m.cache[group].maxTSInDB; l != 0 && l <= ts {
+	if l := m.cache[group].maxTSInDB; l != 0 && l < ts {
 		return false, true
 	}
 	return false, false
@@ -395,7 +395,8 @@ func (t *tracker) Has(id []byte, ts int64) (bool, error) {
 	defer t.lock.Unlock()
 
 	if ts >= t.list.ts+t.list.th {
-		return false, nil
+		// not in this list, but an ancestor may have a larger bound
+		return t.parentHasInLock(id, ts)
 	}
 	if t.locators != nil {
 		if _, ok := t.locators[string(id)] ; ok {
